@@ -43,13 +43,13 @@ type Ctx struct {
 	prefixLbls []string
 	points     []Point
 
-	failures   []Failure
-	outcome    uint64
-	hasOutcome bool
-	witnesses  map[string]int
-	nontrivial bool
-	inputHash  uint64
-	describe   func() string
+	failures    []Failure
+	outcome     uint64
+	hasOutcome  bool
+	witnesses   map[string]int
+	nontrivial  bool
+	inputHash   uint64
+	describe    func() string
 	transitions int
 	relates     []relate
 	counters    map[string]int64
@@ -204,24 +204,24 @@ type Sample struct {
 
 // Stats is what one worker (or the master's expansion phase) measured.
 type Stats struct {
-	Executions   int64               `json:"executions"`
-	Points       int64               `json:"points"`
-	Transitions  int64               `json:"transitions"`
-	MaxDepth     int                 `json:"max_depth"`
-	MaxDevs      int                 `json:"max_devs"`
-	Nontrivial   int64               `json:"nontrivial"`
-	Witnesses    map[string]int64    `json:"witnesses"`
-	Violations   map[string]*ViolationRec `json:"violations"`
-	Samples      []Sample            `json:"samples"`
-	Outcomes     map[uint64]struct{} `json:"-"`
-	Inputs       map[uint64]struct{} `json:"-"`
-	OutcomesCapped bool              `json:"outcomes_capped"`
-	PerScenario  map[string]int64    `json:"per_scenario"`
-	TimedOut     bool                `json:"timed_out"`
-	Uncontrolled int64               `json:"uncontrolled_maps"`
-	Counters     map[string]int64    `json:"counters"`
-	Relations    map[string]map[[16]byte]*relEntry `json:"-"`
-	RelationPairs int64 `json:"relation_pairs"`
+	Executions     int64                             `json:"executions"`
+	Points         int64                             `json:"points"`
+	Transitions    int64                             `json:"transitions"`
+	MaxDepth       int                               `json:"max_depth"`
+	MaxDevs        int                               `json:"max_devs"`
+	Nontrivial     int64                             `json:"nontrivial"`
+	Witnesses      map[string]int64                  `json:"witnesses"`
+	Violations     map[string]*ViolationRec          `json:"violations"`
+	Samples        []Sample                          `json:"samples"`
+	Outcomes       map[uint64]struct{}               `json:"-"`
+	Inputs         map[uint64]struct{}               `json:"-"`
+	OutcomesCapped bool                              `json:"outcomes_capped"`
+	PerScenario    map[string]int64                  `json:"per_scenario"`
+	TimedOut       bool                              `json:"timed_out"`
+	Uncontrolled   int64                             `json:"uncontrolled_maps"`
+	Counters       map[string]int64                  `json:"counters"`
+	Relations      map[string]map[[16]byte]*relEntry `json:"-"`
+	RelationPairs  int64                             `json:"relation_pairs"`
 }
 
 const setCap = 3000000
@@ -332,7 +332,7 @@ func (s *Stats) relateOne(prop, tier, name string, a [16]byte, e *relEntry) {
 		return
 	}
 	s.Violations[key] = &ViolationRec{Property: prop, Scenario: e.Scenario, Tier: tier, Signature: "relation:" + name,
-		Detail: "two executions that must agree under relation " + name + " do not (see choices and choices2)",
+		Detail:  "two executions that must agree under relation " + name + " do not (see choices and choices2)",
 		Choices: fromU16(e.Choices), Scenario2: old.Scenario, Choices2: fromU16(old.Choices), Count: 1}
 }
 
